@@ -31,6 +31,7 @@ from pytype.pytd import pytd
 N = param("C10_N", quick=4, thorough=5)
 MAXB = param("C10_MAXB", quick=3, thorough=3)
 REPEATS = param("C10_REPEATS", quick=1, thorough=1)
+ROOTS = param("C10_ROOTS", quick=1, thorough=1)   # the first ROOTS classes have no explicit bases
 
 SEL = Tuple[(int,) * (N * (MAXB + 1))]
 
@@ -40,7 +41,7 @@ def sel_ok(s):
   conds = []
   for i in range(N):
     k = s[i * (MAXB + 1)]
-    conds.append(inrange(k, 0, (MAXB if i > 0 else 0) + 1))
+    conds.append(inrange(k, 0, (MAXB if i >= ROOTS else 0) + 1))
     for j in range(MAXB):
       b = s[i * (MAXB + 1) + 1 + j]
       conds.append(any([all([j < k, inrange(b, 0, max(i, 1))]),
@@ -61,7 +62,7 @@ def shard_key(s):
 def decode(s):
   h = []
   for i in range(N):
-    k = conc(s[i * (MAXB + 1)], (MAXB if i > 0 else 0) + 1)
+    k = conc(s[i * (MAXB + 1)], (MAXB if i >= ROOTS else 0) + 1)
     h.append(tuple(conc(s[i * (MAXB + 1) + 1 + j], max(i, 1))
                    for j in range(k)))
   return tuple(h)
